@@ -249,7 +249,14 @@ def apply_rules(text, rules, log, kname):
             ok = expect[0] <= cnt <= expect[1]
         log.append("rule %d /%s/ fired %d (expected %s)" % (idx, pat, cnt, expect))
         if not ok:
-            raise ExtractionError("kernel %s: rule %d /%s/ fired %d times, expected %s" % (kname, idx, pat, cnt, expect))
+            # A rule that DROPS text (empty / no-op replacement) must fire exactly as audited. A rule that only renames or
+            # projects (non-empty replacement) may fire a different number of times after a harmless refactoring: text it no
+            # longer matches stays C++ and is caught by the leftover scan, the C compiler or the undeclared-function guard of
+            # the runner (all: undecided), text it newly matches is mapped the same way and judged by the contract.
+            drops = rep.strip() in ("", "(void)0;", ";") or rep.strip().startswith("/*")
+            if drops or os.environ.get("VERIF_STRICT_RULES"):
+                raise ExtractionError("kernel %s: rule %d /%s/ fired %d times, expected %s" % (kname, idx, pat, cnt, expect))
+            log.append("note: rule %d fired %d times instead of %s (tolerated: renaming/projecting rule)" % (idx, cnt, expect))
     return text
 
 
